@@ -128,7 +128,8 @@ def c03(scn, obs):
 
 # ------------------------------------------------------------------ C12 / C02
 
-EVENT_HOOKS = ('on_start_trace', 'on_end_trace', 'on_start_prompt', 'on_end_prompt')
+EVENT_HOOKS = ('on_start_trace', 'on_end_trace', 'on_start_prompt', 'on_end_prompt',
+               'on_write_stdout', 'on_start_trace_call', 'on_end_trace_call', 'on_start_cmdloop', 'on_end_cmdloop')   # the last five only with config extra_hooks
 
 
 def c12(scn, obs):
